@@ -37,6 +37,9 @@ type FS struct {
 	Nodes map[string]*Node
 	// names that ever existed (for the "earlier life" non-triviality rule)
 	Ever map[string]bool
+	// WPIR mirrors NewSTFS's writePermImpliesReadPerm (what `serve ftp` passes): a handle
+	// opened O_WRONLY can be read as well
+	WPIR bool
 }
 
 func New() *FS {
@@ -46,7 +49,7 @@ func New() *FS {
 func Clean(p string) string { return path.Clean("/" + p) }
 
 func (m *FS) Clone() *FS {
-	c := &FS{Nodes: map[string]*Node{}, Ever: map[string]bool{}}
+	c := &FS{Nodes: map[string]*Node{}, Ever: map[string]bool{}, WPIR: m.WPIR}
 	for k, v := range m.Nodes {
 		n := *v
 		n.Content = append([]byte(nil), v.Content...)
@@ -271,7 +274,7 @@ func (m *FS) Open(p string, flag int, perm uint32) (*Handle, string) {
 		m.Nodes[p] = n
 		m.Ever[p] = true
 	}
-	h := &Handle{fs: m, Path: p, R: acc == os.O_RDONLY || acc == os.O_RDWR, W: acc == os.O_WRONLY || acc == os.O_RDWR, Append: flag&os.O_APPEND != 0}
+	h := &Handle{fs: m, Path: p, R: acc == os.O_RDONLY || acc == os.O_RDWR || (m.WPIR && acc == os.O_WRONLY), W: acc == os.O_WRONLY || acc == os.O_RDWR, Append: flag&os.O_APPEND != 0}
 	if flag&os.O_TRUNC != 0 && h.W {
 		if len(n.Content) > 0 {
 			n.Timed = false
